@@ -7,7 +7,7 @@ state_estimator, state_estimator_vec, predictive_observation_dist/_vec, observat
 BeliefMDP.next_state_dist / reward / is_absorbing, ValueBasedTabularPOMDPPolicy.next_agentstate.
 Every output goes, as the exact rational of the float, into model/POMDP.v:check_ba / check_b /
 obs_matrix_eq, evaluated by vm_compute on Q against the mirror functions the theorems of
-props/C07.v are about (tolerance 1e-12, absolute + relative).  A failed comparison is then decided
+props/C07.v are about (tolerance 1e-13, purely relative for probabilities, absolute + relative for the reward).  A failed comparison is then decided
 by an independent exact oracle (fractions.Fraction) that tests the property's clauses directly.
 """
 from fractions import Fraction as F
@@ -23,7 +23,7 @@ INFO = {
     "trusted_base": [
         "model/POMDP.v mirror functions and comparators are evaluated on Q (NumQ); theorems are on R; tied by paramcoq transfer (theory/POMDPTransfer.v)",
         "generated probabilities/rewards/beliefs reach the model exactly and msdm as nearest doubles (dyadic except reachable beliefs)",
-        "comparison tolerance 1e-12 (absolute + relative) between msdm's floats and the exact mirror values",
+        "comparison tolerance 1e-13 (purely relative for every probability, so posteriors of very rare observations are checked as ratios; absolute + relative for the signed reward sum) between msdm's floats and the exact mirror values",
         "harness literals: 53-bit float mantissas enter Coq as primitive Uint63 literals converted by Uint63.to_Z (harness-side only; no theorem depends on it)",
     ],
     "assumptions": [
@@ -45,7 +45,7 @@ Definition wf := @wfpb Q NumQ.
 Definition ome := @obs_matrix_eq Q NumQ.
 Definition cb := @check_b Q NumQ.
 Definition cba := @check_ba Q NumQ.
-Definition tol : Q := 1 # 1000000000000.
+Definition tol : Q := 1 # 10000000000000.
 """
 
 CLAUSES = ["est_dict", "est_vec", "next_agentstate", "pred_dict", "pred_vec", "belief_next",
@@ -131,6 +131,11 @@ def case_term(case, res):
 
 # ---- exact oracle: the property's clauses, tested directly on the implementation's output ----
 def close(x, y):
+    """probabilities: RELATIVE (posteriors of rare observations are ratios of tiny numbers; 0 must be 0)"""
+    return abs(vlib.frac(x) - y) <= OTOL * abs(y)
+
+
+def close_abs(x, y):
     return abs(vlib.frac(x) - y) <= OTOL * (1 + abs(y))
 
 
@@ -205,7 +210,7 @@ def oracle_ba(case, res, bi, ai, only=None):
                         "belief": [float(x) for x in nb], "prob": float(p)}
     if want("belief_reward"):
         ref = sum(b[s] * P[s][ai][ns] * R[s][ai][ns] for s in range(n) for ns in range(n))
-        if not close(r["belief_reward"], ref):
+        if not close_abs(r["belief_reward"], ref):
             return {"clause": "belief-MDP reward is not the belief-expected immediate reward",
                     "got": float(vlib.frac(r["belief_reward"])), "expected": str(ref)}
     return None
@@ -223,6 +228,11 @@ def stats_ba(case, res, bi, ai, cnt):
         if nb is None:
             cnt["impossible_observations"] += 1
         else:
+            Z = gen_pomdp.joint_exact(P, Ob, b, ai, o)[1]
+            if Z <= F(1, 10**8):
+                cnt["rare_observations_Z_le_1e-8"] += 1
+            if any(0 < x <= F(1, 10**8) for x in nb):
+                cnt["posteriors_with_tiny_component"] += 1
             posts.append(tuple(nb))
             if any(x == 0 for x in nb) and sum(1 for x in nb if x > 0) > 1:
                 cnt["posteriors_with_zero_and_mixed_support"] += 1
@@ -259,7 +269,7 @@ def _run(ctx, tier):
         cases = [gen_case(ctx.rng, tier) for _ in range(ncases)]
     impl = ctx.impl("c07_impl.py", {"cases": cases}, shards=4 if tier == "quick" else 8)["results"]
     terms, meta = [], []
-    feats, cnt = {}, {k: 0 for k in ("bao_triples", "impossible_observations", "posteriors_with_zero_and_mixed_support",
+    feats, cnt = {}, {k: 0 for k in ("bao_triples", "impossible_observations", "rare_observations_Z_le_1e-8", "posteriors_with_tiny_component", "posteriors_with_zero_and_mixed_support",
                                      "belief_next_with_merged_posteriors", "belief_next_with_several_successors",
                                      "absorbing_beliefs", "beliefs", "belief_action_checks")}
     kinds = {}
@@ -333,8 +343,9 @@ def _run(ctx, tier):
             for ai, flags in enumerate(ares):
                 nevals += 1
                 failed = [c for c, okv in zip(CLAUSES, flags) if not okv]
-                if "belief_next_count" in failed and not be["dyadic"]:
-                    failed.remove("belief_next_count")   # float posteriors of a non-dyadic belief may split an exact tie
+                if "belief_next_count" in failed and (not be["dyadic"] or case["pomdp"].get("obs_tiny")):
+                    # float arithmetic is exact only for k/8 data: otherwise rounding may split an exact tie
+                    failed.remove("belief_next_count")
                 if not failed:
                     continue
                 why = oracle_ba(case, res, bi, ai)
@@ -344,14 +355,14 @@ def _run(ctx, tier):
                     detail["failing_clause"] = why
                     ctx.violation("C07:%s:%s" % (failed[0], why["clause"]), detail, found=True)
                 else:
-                    detail["correspondence"] = "msdm's output differs from the mirror model/POMDP.v beyond 1e-12 but the exact oracle finds every property clause satisfied to 1e-9"
+                    detail["correspondence"] = "msdm's output differs from the mirror model/POMDP.v beyond 1e-13 (relative) but the exact oracle finds every property clause satisfied to 1e-9"
                     ctx.violation("C07:mirror-differs:%s" % "+".join(failed), detail, found=False)
     ctx.coverage.update({
         "evaluations": nevals,
         "distinct_nontrivial": len(distinct),
         "rule": "POMDPs from harness/gen_pomdp.py (2..5 states, 1..3 actions, 1..4 observations, k/8 probabilities with zero entries, "
                 "action-dependent asymmetric observation kernels incl. uninformative / twin-column / deterministic ones, absorbing flags with and "
-                "without exits, rewards, multi-state initial distributions); beliefs per POMDP: all vertices, two faces, 3 grid points k/8, an interior "
+                "without exits, rewards, multi-state initial distributions; 40% of the POMDPs have observation entries 2^-30 / 2^-40 = possible but very rare observations); beliefs per POMDP: all vertices, two faces, 2 grid points k/8, beliefs with a component 2^-30, an interior "
                 "point, the initial distribution, absorbing-supported and leaking beliefs, 3 exactly computed reachable beliefs; for every belief all "
                 "actions and all observations incl. impossible ones and one never emitted; distinct = structural hash of the POMDP; non-trivial = "
                 "at least 2 states (all generated cases)",
